@@ -343,6 +343,70 @@ def check_numba_threads(ctx):
         numba.set_num_threads(maxt)
 
 
+
+def check_model_amplitudes(ctx):
+    """model amplitudes (matrix and function route) and the sensitivity maps: bit-for-bit the same for every numba
+    thread count, every block size and every repetition of the call; no input array is modified"""
+    import numba
+    from arim import model
+
+    rng = ctx.rng
+    maxt = numba.config.NUMBA_NUM_THREADS
+    try:
+        for _ in range(6 * ctx.scale):
+            numel = int(rng.integers(1, 5))
+            npts = int(rng.integers(2, 30))
+            tx, rx = fixtures.pairs(rng, numel, rng.choice(["fmc", "hmc", "rand"]))
+            tx, rx = np.asarray(tx), np.asarray(rx)
+            nang = int(rng.integers(3, 12))
+            mat = (rng.normal(size=(nang, nang)) + 1j * rng.normal(size=(nang, nang))).astype(np.complex128)
+            txw = (rng.normal(size=(npts, numel)) + 1j * rng.normal(size=(npts, numel))).astype(np.complex128)
+            rxw = (rng.normal(size=(npts, numel)) + 1j * rng.normal(size=(npts, numel))).astype(np.complex128)
+            txa, rxa = rng.uniform(-4, 4, size=(npts, numel)), rng.uniform(-4, 4, size=(npts, numel))
+            rot = float(rng.uniform(-2, 2))
+
+            def sfun(inc, out):
+                return np.exp(1j * (inc + 2 * out)) * (1.5 + np.cos(out))
+            objs = {"matrix": model._ModelAmplitudesWithScatMatrix(tx, rx, mat, txw, rxw, txa, rxa, rot),
+                    "function": model._ModelAmplitudesWithScatFunction(tx, rx, sfun, txw, rxw, txa, rxa, rot)}
+            inputs = (tx, rx, mat, txw, rxw, txa, rxa)
+            before = [x.tobytes() for x in inputs]
+            w = rng.choice([1.0, 2.0], size=len(tx))
+            wb = w.tobytes()
+            for route, obj in objs.items():
+                cj = {"op": "model_amplitudes", "route": route, "npts": npts, "numel": numel, "numtimetraces": int(len(tx))}
+                ctx.case(("ma", route, txw.tobytes(), mat.tobytes()), True, sample=cj)
+                numba.set_num_threads(1)
+                ref = np.array(obj[...])
+                for nt in sorted({2, int(rng.integers(1, maxt + 1)), maxt}):
+                    numba.set_num_threads(nt)
+                    got = np.concatenate([np.atleast_2d(obj[sl]) for sl in (slice(0, npts // 2), slice(npts // 2, None))]) if rng.random() < 0.5 else obj[...]
+                    ctx.count("model_amplitudes:threads")
+                    if not np.array_equal(np.asarray(got).view(np.uint8), ref.view(np.uint8)):
+                        ctx.violate(f"model amplitudes ({route}) differ between 1 and {nt} numba threads / between whole-grid and sliced evaluation",
+                                    {**cj, "threads": nt}, {"kind": "numba_threads"})
+                # sensitivity maps: block sizes, repeated calls, ndarray and ModelAmplitudes inputs
+                arr = np.array(ref)          # a plain ndarray is a documented input type
+                arr_before = arr.tobytes()
+                for fn in (model.sensitivity_uniform_tfm, model.sensitivity_model_assisted_tfm):
+                    base = fn(obj, w, block_size=4000)
+                    for blk in sorted({1, 2, 3, max(1, npts - 1), npts, npts + 1, 4000}):
+                        for inp, label in ((arr, "ndarray"), (obj, "ModelAmplitudes")):
+                            res = fn(inp, w, block_size=blk)
+                            ctx.count("sensitivity:block")
+                            if not np.array_equal(res.view(np.uint8), base.view(np.uint8)):
+                                ctx.violate(f"{fn.__name__}({label}) depends on the block size / on earlier calls (block_size={blk})",
+                                            {**cj, "block": blk, "input": label}, {"kind": "block_size"})
+                            if arr.tobytes() != arr_before:
+                                ctx.violate(f"{fn.__name__} modified the model-amplitude array it was given (block_size={blk})",
+                                            {**cj, "block": blk}, {"kind": "inputs"})
+                                arr = np.array(ref)
+                if [x.tobytes() for x in inputs] != before or w.tobytes() != wb:
+                    ctx.violate("a model-amplitude / sensitivity call modified one of its input arrays", cj, {"kind": "inputs"})
+    finally:
+        numba.set_num_threads(maxt)
+
+
 def run(ctx):
     ctx.rule = ("chunk_array: every (L, block) with L <= 24 (48 thorough) and block in 1..L+2 plus two larger ones, 7 shape/axis forms; "
                 "find_minimum_times / distance_pairwise: random shapes <= 11, block sizes around the row length, every permutation of <= 4 tasks, "
@@ -356,6 +420,7 @@ def run(ctx):
         ctx.notes.append("driver unavailable: tile correspondence skipped, oracle only")
     check_ray_tracing(ctx)
     check_numba_threads(ctx)
+    check_model_amplitudes(ctx)
     ctx.assumptions += [
         "real interleavings inside numba prange / nogil kernels and the GIL are outside the model: explored, not proved",
         "a task reads only immutable inputs and its own output cells (checked: views handed to tasks do not alias other tiles)",
@@ -374,5 +439,6 @@ def search(ctx):
             check_distance(ctx)
         check_ray_tracing(ctx)
         check_numba_threads(ctx)
+        check_model_amplitudes(ctx)
     finally:
         ctx.scale = old
